@@ -38,13 +38,33 @@ func runC02(r *mon.Run) {
 	}
 
 	// --- IsGreaterThanHalfN on the boundary family ---------------------------
-	r.Require("n:half:=halfN", "n:half:=halfN+1", "n:half:limb-forced", "n:half:true", "n:half:false")
+	r.Require("n:half:=halfN", "n:half:=halfN+1", "n:half:limb-forced", "n:half:true", "n:half:false", "n:half:diff-only-limb-0", "n:half:diff-only-limb-1", "n:half:diff-only-limb-2", "n:half:diff-only-limb-3")
 	r.Each("n/half-order", r.N(6000, 300000), func(w *mon.W, i int) {
 		rng := w.Rng
 		var v *big.Int
-		switch i % 6 {
+		switch i % 8 {
+		case 6, 7:
+			// the DIFFERENCE to (n-1)/2 has exactly one non-zero 64-bit limb
+			// (forcing a limb of the value itself does not give this: limb 2 and 3
+			// of (n-1)/2 are all ones / 0x7fff.., so a forced limb carries)
+			j := uint(rng.Intn(4))
+			c := gen.Pick(rng, big.NewInt(1), new(big.Int).SetUint64(^uint64(0)), new(big.Int).SetUint64(rng.U64()|1), new(big.Int).SetUint64(1<<63))
+			if j == 3 {
+				c = new(big.Int).Rsh(c, 2) // keep halfN + c*2^192 below n
+				if c.Sign() == 0 {
+					c = big.NewInt(1)
+				}
+			}
+			d := new(big.Int).Lsh(c, 64*j)
+			if rng.Bool() {
+				v = new(big.Int).Add(oracle.HalfN, d)
+				w.Class(fmt.Sprintf("n:half:diff-only-limb-%d", j))
+			} else {
+				v = new(big.Int).Sub(oracle.HalfN, d)
+				w.Class(fmt.Sprintf("n:half:neg-diff-only-limb-%d", j))
+			}
 		case 0:
-			v = new(big.Int).Add(oracle.HalfN, big.NewInt(int64(i/6%9-4)))
+			v = new(big.Int).Add(oracle.HalfN, big.NewInt(int64(i/8%9-4)))
 		case 1, 2:
 			// (n-1)/2 with one limb forced to 0 / 2^64-1 / +-1
 			l := oracle.Limbs(oracle.HalfN)
